@@ -198,10 +198,16 @@ def spec_C17(lines, ghost=None):
     non re-entrant calls and is independent between keys; a re-entered syscall / named_syscall key gets fresh state and
     the outer-most state is what persists; spawned systems that are missing, despawned or running return an error
     without running; queued writes are applied before the call returns."""
-    bad = []; stack = []; stored = {}; alive = set(); pending_writes = []
+    bad = []; stack = []; stored = {}; alive = set(); pending_writes = []; calls = []
     for i, l in enumerate(lines):
         t = tok(l)
         if t[0] != "sc": continue
+        if t[1] == "call": calls.append([t[2], False]); continue
+        if t[1] == "enter" and calls and calls[-1][0] == t[2]: calls[-1][1] = True
+        if t[1] in ("ret", "err") and calls and calls[-1][0] == t[2]:
+            c = calls.pop()
+            if t[1] == "err" and c[1]: bad.append("line %d: the call of %s ran its system but returned an error" % (i, t[2]))
+            if t[1] == "ret" and not c[1]: bad.append("line %d: the call of %s returned a value without running" % (i, t[2]))
         if t[1] == "spawned": alive.add(t[2]); stored[t[2]] = 0
         elif t[1] == "despawned": alive.discard(t[2])
         elif t[1] == "enter":
